@@ -78,23 +78,30 @@ class LevyMeasure:
         """
         return x * self.__call__(x)
 
+    @staticmethod
+    def _quad(func, a: float, b: float) -> float:
+        """Quadrature of func over [a, b] split at 0 and +-1: the measure is concentrated (and may be singular) at the
+        origin, which a single call over a long or infinite interval can miss altogether"""
+        points = [a] + [p for p in (-1.0, 0.0, 1.0) if a < p < b] + [b]
+        return sum(quad(func, lo, hi)[0] for lo, hi in zip(points[:-1], points[1:]))
+
     def integrate(self, a: float, b: float) -> float:
         """Integrate the levy measure :math:`\\nu(dx)` between x=a and x=b"""
         if a > b:
             raise ValueError("Expected a<b when integrating the levy measure")
-        return quad(lambda x: self.__call__(x), a, b)[0]
+        return self._quad(lambda x: self.__call__(x), a, b)
 
     def integrate_against_x(self, a: float, b: float) -> float:
         """Integrate :math:`x \\nu(dx)` between x=a and x=b"""
         if a > b:
             raise ValueError("Expected a<b when integrating the levy measure")
-        return quad(self.x_nu, a, b)[0]
+        return self._quad(self.x_nu, a, b)
 
     def integrate_against_xx(self, a: float, b: float) -> float:
         """Integrate :math:`x^2 \\nu(dx)` between x=a and x=b"""
         if a > b:
             raise ValueError("Expected a<b when integrating the levy measure")
-        return quad(lambda x: x * x * self.__call__(x), a, b)[0]
+        return self._quad(lambda x: x * x * self.__call__(x), a, b)
 
     def integrate_against_xn(self, a: float, b: float, n: int):
         """Integrate :math:`x^n nu(dx)` between x=a and x=b"""
@@ -107,7 +114,7 @@ class LevyMeasure:
 
         if a > b:
             raise ValueError("Expected a<b when integrating the levy measure")
-        return quad(lambda x: x**n * self.__call__(x), a, b)[0]
+        return self._quad(lambda x: x**n * self.__call__(x), a, b)
 
 
 class TruncatedLevyMeasure(LevyMeasure):
